@@ -1059,20 +1059,20 @@ class TypeEngine(Visitable, Generic[_T]):
         self,
     ) -> Union[CacheConst, Tuple[Any, ...]]:
         names = util.get_cls_kwargs(self.__class__)
-        key = (self.__class__,) + tuple(
-            (
-                k,
-                (
-                    self.__dict__[k]._static_cache_key
-                    if isinstance(self.__dict__[k], TypeEngine)
-                    else self.__dict__[k]
-                ),
-            )
-            for k in names
-            if k in self.__dict__
-            and not k.startswith("_")
-            and self.__dict__[k] is not None
-        )
+        key: Tuple[Any, ...] = (self.__class__,)
+        for k in names:
+            if (
+                k in self.__dict__
+                and not k.startswith("_")
+                and self.__dict__[k] is not None
+            ):
+                value = self.__dict__[k]
+                if isinstance(value, TypeEngine):
+                    value = value._static_cache_key
+                    if value is NO_CACHE:
+                        # e.g. ARRAY of a type with cache_ok = False
+                        return NO_CACHE
+                key += ((k, value),)
         if self._variant_mapping:
             # types established by with_variant() render in place of
             # this one for their dialect
